@@ -9,7 +9,8 @@ import RsslVerif.Model.HlslAst
 `generate_user_call` for free functions, `generate_invocation_args`),
 `genStmt`/`genStmts` ↔ `generate_statement`/`generate_scope_block`, `genForInit` ↔ `generate_for_init`,
 `genVarDef` ↔ `generate_variable_definition` (local storage, scalar type, `Initializer::Expression`).
-Every Rust panic inside these functions is an explicit `Except.error (.panic …)`.
+Every Rust panic inside these functions is an explicit `Except.error (.panic …)`, every `Err(GenerateError::e)` an
+`Except.error (.diag e)` (since fix 6017bad: an `IntLiteral` beyond ±u64::MAX is `IntLiteralOutOfRange`, no longer a panic).
 Names come from the exporter's `NameMap` and are a parameter (`Ctx`); name hygiene is property C15.
 -/
 namespace RsslVerif.Model.GenHlsl
@@ -18,6 +19,7 @@ open RsslVerif.Model.Ir (Ty Var Const)
 
 inductive GenErr where
   | panic (site : String)
+  | diag (e : String)               -- the exporter returns `Err(GenerateError::e)`: a reported export error, no panic
   | unsupported (what : String)     -- outside the modelled subset (never produced for the subset)
   deriving DecidableEq, Repr, Inhabited
 
@@ -91,6 +93,7 @@ def genLiteral (c : Const) : Except GenErr HlslAst.Expr :=
   match findArm c.kind (Const.intValue c) with
   | none => .error (.unsupported "no arm")
   | some .panics => .error (.panic "generate_literal: cannot represent")
+  | some (.errs e) => .error (.diag e)
   | some .enumLookup => .error (.unsupported "enum")
   | some (.plain k) => (mkLit k c).map .lit
   | some (.widen k) => (mkLit k c).map .lit
